@@ -16,7 +16,9 @@ UNIVERSE.register(_io.BufferedWriter)
 UNIVERSE.register(_io.TextIOWrapper)
 _asn(os)
 _asn(_io)
-_schema(os.stat_result, st_mtime='int')
+_schema(os.stat_result, st_mtime='float', st_mtime_ns='int')
+# st_mtime: seconds with a fraction (float kind of the engine: exact scaled value, only comparison and int() are modelled);
+# st_mtime_ns: the same instant in integral nanoseconds
 from giscanner import cachestore   # noqa
 _schema(cachestore.CacheStore, _directory='str?')
 
@@ -46,7 +48,8 @@ contract('posix.listdir', params={'path': 'str'}, returns='list[str]', fresh_res
 
 
 def mtime(path):
-    return os.stat(path).st_mtime
+    """modification time in nanoseconds (exact)"""
+    return os.stat(path).st_mtime_ns
 
 
 contract(CS + '_cache_is_valid',
